@@ -292,7 +292,7 @@ def toPatRoot (X : TP) (d : Bool) : GoNode → Option Pat
 mutual
 /-- the smallest tier whose theorem speaks about this tree (given that `toPat` succeeds and every direction bit
     is left-to-right): 1 = empty, nothing, anchors, One/Notone/Set, Multi, Concatenate, Alternate, Capture, Group;
-    2 = + single-character loops; 3 = + Atomic, lookahead; 4 = + Loop/Lazyloop, Ref, conditionals;
+    2 = + single-character loops; 3 = + Atomic, lookahead; 4 = + Loop/Lazyloop, Ref, conditionals, lookbehind;
     9 = `UpdateBumpalong`, ECMAScript boundaries, balancing groups, unknown nodes -/
 def tier : GoNode → Nat
   | .empty => 1
@@ -308,8 +308,8 @@ def tier : GoNode → Nat
   | .loop _ _ _ c => max 4 (tier c)
   | .capture _ n c => if n == -1 then tier c else 9
   | .group c => tier c
-  | .poslook c => max 3 (tier c)
-  | .neglook c => max 3 (tier c)
+  | .poslook c => if lookDir c == some false then max 3 (tier c) else max 4 (tier c)
+  | .neglook c => if lookDir c == some false then max 3 (tier c) else max 4 (tier c)
   | .atomic c => max 3 (tier c)
   | .backrefcond1 _ y => max 4 (tier y)
   | .backrefcond2 _ y n => max 4 (max (tier y) (tier n))
